@@ -208,6 +208,16 @@ TABLE = {
             "write per interval and recorded-time >= reported-time for every message stream, because they hold on all paths.",
             "Decides the watermark discipline, not numeric outcomes for concrete streams; database behaviour is outside. "
             "Observation recorded in the rule text: a run restored after a reconnect restarts with an empty watermark."),
+    "C25": ("sibling agreement of the routing key across read/write/read_batch/write_batch and dataflow pairing rules "
+            "(fresh per-call grouping, exactly-one-group path count, zip/list identity, parameter-order result)",
+            "All four methods route a register by the same expression; the batch methods group into a dict created in the call, "
+            "every register joins exactly one group in input order on every path, each group is sent to its own key, read results "
+            "are zipped with the very list that was passed and returned as a comprehension over the parameter, write values are "
+            "recorded per register from the positional pairing and handed to a layer as a comprehension over the register list "
+            "passed with them, in signature order. These are necessary for transparency for every assignment of registers to "
+            "layers and every order.",
+            "Decides the routing/pairing structure (accepted idioms: if/else grouping, setdefault, defaultdict(list)); concrete "
+            "values and behaviour of the underlying layers are outside."),
     "C01": ("state-carriage completeness, self-lookup rule, origin-token (alias) propagation and validate-before-commit dominance",
             "Every runtime attribute the interpreter layer writes on AST nodes must be carried by extract_state/apply_state of "
             "its declaring class; lookups of a node id that may be the receiver's own must pass include_self=True; symbolic "
@@ -312,8 +322,6 @@ TABLE = {
 }
 
 DESIGN_NA = {
-    "C25": "permutation/partition law over runtime register lists and values; the implementation is two short loops and "
-           "any structural rule would merely restate them (no necessary condition weaker than the code itself)",
 }
 
 ALL_IDS = [f"C{i:02d}" for i in range(1, 42)]
